@@ -566,19 +566,19 @@ func flowOut(flow map[*ssa.BasicBlock]kset, pred, succ *ssa.BasicBlock) kset {
 //	"prop|ptr"  canAddr || (embedded field is a pointer)
 //	"kind==Ptr" a comparison of the type's kind with reflect.Ptr
 var canAddrTable = map[string]string{
-	"json.constructCachedCodec->json.constructCodec":              "kind==Ptr",
-	"json.constructCodec->json.constructArrayCodec":               "prop",
-	"json.constructCodec->json.constructStructCodec":              "prop",
-	"json.constructStringCodec->json.constructCodec":              "prop",
-	"json.constructArrayCodec->json.constructCodec":               "prop",
-	"json.constructSliceCodec->json.constructCodec":               "true",
-	"json.constructMapCodec->json.constructCodec":                 "false",
-	"json.constructMapCodec->json.constructStringCodec":           "false",
-	"json.constructStructCodec->json.constructStructType":         "prop",
-	"json.constructStructType->json.appendStructFields":           "prop",
-	"json.appendStructFields->json.constructStructType":           "prop|ptr",
-	"json.appendStructFields->json.constructCodec":                "prop",
-	"json.constructPointerCodec->json.constructCodec":             "true",
+	"json.constructCachedCodec->json.constructCodec":                "kind==Ptr",
+	"json.constructCodec->json.constructArrayCodec":                 "prop",
+	"json.constructCodec->json.constructStructCodec":                "prop",
+	"json.constructStringCodec->json.constructCodec":                "prop",
+	"json.constructArrayCodec->json.constructCodec":                 "prop",
+	"json.constructSliceCodec->json.constructCodec":                 "true",
+	"json.constructMapCodec->json.constructCodec":                   "false",
+	"json.constructMapCodec->json.constructStringCodec":             "false",
+	"json.constructStructCodec->json.constructStructType":           "prop",
+	"json.constructStructType->json.appendStructFields":             "prop",
+	"json.appendStructFields->json.constructStructType":             "prop|ptr",
+	"json.appendStructFields->json.constructCodec":                  "prop",
+	"json.constructPointerCodec->json.constructCodec":               "true",
 	"json.constructEmbeddedStructPointerCodec->json.constructCodec": "true",
 }
 
